@@ -375,7 +375,7 @@ impl Ctx {
         }
         b
     }
-    /// (commentText, linesCount, h18) from the model
+    /// (commentText, linesCount, long form? `true|false|empty`) from the model
     fn comment_text(&mut self, text: &str) -> (Vec<u8>, usize, String) {
         if let Some(t) = self.text_cache.get(text) {
             return t.clone();
@@ -384,7 +384,7 @@ impl Ctx {
         let parts: Vec<&str> = ans.split(' ').collect();
         let ct = unhex(parts[0]).unwrap_or_else(|| panic!("bad comment_text answer: {}", ans));
         let n: usize = parts[1].parse().unwrap();
-        let h = self.model.ask(&format!("c18.h18 {}", hex(text.as_bytes())));
+        let h = self.model.ask(&format!("c18.long_form {}", hex(text.as_bytes())));
         let r = (ct, n, h);
         self.text_cache.insert(text.to_owned(), r.clone());
         r
@@ -787,12 +787,13 @@ fn judge(ctx: &mut Ctx, case: &Case, witness_mode: bool) -> Outcome {
     }
     match case {
         Case::Append { text, loc, src } => {
-            let (ct, nlines, h18) = ctx.comment_text(text);
-            let inside = h18 == "true" || h18 == "empty";
-            o.hist("append_region", format!("{}:{}", loc.name(), match h18.as_str() {
+            let (ct, nlines, form) = ctx.comment_text(text);
+            // (F20/F21 are fixed: every text is inside the proved region, `append_safe_full`)
+            let inside = true;
+            o.hist("append_region", format!("{}:{}", loc.name(), match form.as_str() {
                 "empty" => "empty text",
-                "true" => if text.contains('\n') { "multi-line" } else { "single-line inside H18" },
-                _ => "outside H18 (F20/F21)",
+                "true" => if text.contains('\n') { "long form: multi-line" } else { "long form: CR or long-bracket opener" },
+                _ => "single-line form",
             }));
             // Where the real rule attached the comment: the number of code tokens written before the
             // comment that holds it (first such comment for `start`, last for `end`). The model attaches
@@ -868,10 +869,6 @@ fn judge(ctx: &mut Ctx, case: &Case, witness_mode: bool) -> Outcome {
             for (name, what) in &fails {
                 if name == "O4" {
                     o.count("F25_end_shifts_lines");
-                    continue;
-                }
-                if !inside && !witness_mode {
-                    o.count("oracle_fails_outside_H18");
                     continue;
                 }
                 // F27 at the end of a file: the last comment of the file, or the appended comment itself, is a
